@@ -25,20 +25,17 @@ MUTATIONS = [
     ("C01", "c01-fees-to-first-validator-instead-of-sudo", SEQ + "app/mod.rs",
      "                .increase_balance(fee_recipient, &fee_asset, total_amount)",
      "                .increase_balance(fee_recipient, &fee_asset, total_amount.saturating_sub(u128::from(total_amount > 1_000_000)))"),
-    ("C02", "c02-unlock-skips-withdrawer-check", SEQ + "checked_actions/bridge/bridge_unlock.rs",
-     "        ensure!(\n            *self.tx_signer.as_bytes() == withdrawer,",
-     "        ensure!(\n            !PURE_UNLOCK || *self.tx_signer.as_bytes() == withdrawer,"),
+    ("C02", "c02-unlock-checks-bridge-sudo-instead-of-withdrawer", SEQ + "checked_actions/bridge/bridge_unlock.rs",
+     "            .get_bridge_account_withdrawer_address(&self.action.bridge_address)\n            .await\n            .wrap_err(\"failed to get bridge account withdrawer address\")?",
+     "            .get_bridge_account_sudo_address(&self.action.bridge_address)\n            .await\n            .wrap_err(\"failed to get bridge account withdrawer address\")?"),
     ("C02", "c02-sudo-change-accepts-new-address-as-signer", SEQ + "checked_actions/sudo_address_change.rs",
      "            &sudo_address == self.tx_signer.as_bytes(),",
      "            &sudo_address == self.tx_signer.as_bytes()\n                || self.action.new_address.bytes() == *self.tx_signer.as_bytes(),"),
     ("C02", "c02-bridge-sudo-change-by-withdrawer", SEQ + "checked_actions/bridge_sudo_change.rs",
      "        ensure!(\n            &sudo_address == self.tx_signer.as_bytes(),",
      "        let withdrawer = state\n            .get_bridge_account_withdrawer_address(&self.action.bridge_address)\n            .await\n            .ok()\n            .flatten();\n        ensure!(\n            &sudo_address == self.tx_signer.as_bytes()\n                || withdrawer.as_ref() == Some(self.tx_signer.as_bytes()),"),
-    ("C03", "c03-nonce-check-allows-lower", SEQ + "checked_transaction/mod.rs",
+    ("C06", "c06-nonce-check-allows-lower-at-execution", SEQ + "checked_transaction/mod.rs",
      "        if current_nonce != tx_nonce {", "        if current_nonce < tx_nonce {"),
-    ("C03", "c03-fee-pot-survives-failed-tx", SEQ + "app/mod.rs",
-     "        tx.execute(&mut state_tx).await?;\n",
-     "        if let Err(error) = tx.execute(&mut state_tx).await {\n            // keep the fees of the actions that did execute\n            let fees = crate::fees::StateReadExt::get_block_fees(&state_tx);\n            drop(state_tx);\n            if tx.checked_actions().len() > 2 {\n                let mut keep = self.state.try_begin_transaction().expect(\"unique\");\n                cnidarium::StateWrite::object_put(&mut keep, \"fees/block\", fees);\n                let _ = keep.apply();\n            }\n            return Err(error);\n        }\n"),
     ("C04", "c04-bridge-transfer-forgets-event", SEQ + "checked_actions/bridge/bridge_transfer.rs",
      "        self.checked_bridge_lock.record_deposit(&mut state);\n        self.checked_bridge_unlock.record_withdrawal_event(state)",
      "        self.checked_bridge_lock.record_deposit(&mut state);\n        if from == to {\n            return Ok(());\n        }\n        self.checked_bridge_unlock.record_withdrawal_event(state)"),
